@@ -45,7 +45,15 @@ def rewrite(h, mapping):
     if origin is cabc.Callable:
         params = args[0] if args[0] is Ellipsis or not isinstance(args[0], list) else [rewrite(a, mapping) for a in args[0]]
         return typing.Callable[params, rewrite(args[1], mapping)]
-    new = tuple(a if a is Ellipsis else rewrite(a, mapping) for a in args)
+    def one(a):
+        if a is Ellipsis:
+            return a
+        inner = refsem._unpacked(a)
+        if inner is not None:               # *tuple[...] / Unpack[Tuple[...]]: rewrite inside, unpack again
+            t = tuple[tuple(x if x is Ellipsis else rewrite(x, mapping) for x in inner)]
+            return next(iter(t))
+        return rewrite(a, mapping)
+    new = tuple(one(a) for a in args)
     if new == args:
         return h
     if origin is Union or origin is getattr(__import__('types'), 'UnionType', None):
